@@ -235,14 +235,26 @@ def close_all(ctx, facts, b):
     dom = b.dominators()
     cl = flow.find_calls(b, re.compile(r"::close$"))
     vals = [(bb, t) for bb, t in flow.find_calls(b, re.compile(r"HashMap::<K, V, S, A>::(values|values_mut|iter|iter_mut)$")) if "SendingEnd<" in (b.local_ty(F.op_local(t["args"][0])) or "")]   # the map of sending ends, whatever it is called
+    lb, helper_call = b, None
+    if not cl:
+        # the loop may live in an async helper that is handed the map: `close_shard_channels(send_channels).await`
+        for hbb, ht in b.calls():
+            fn = F.callee(ht)[0] or ""
+            if fn in facts.bodies and any("SendingEnd<" in (b.local_ty(F.op_local(a)) or "") for a in ht["args"] if F.op_local(a) is not None):
+                for hb in facts.tree(fn):
+                    hcl = flow.find_calls(hb, re.compile(r"::close$")) if hb.coroutine else []
+                    hvals = [(bb, t) for bb, t in flow.find_calls(hb, re.compile(r"HashMap::<K, V, S, A>::(values|values_mut|iter|iter_mut)$")) if "upvar" in str(flow.expr_of(hb, t["args"][0], max_depth=6))] if hcl else []
+                    if hcl and hvals and flow.settled(b, hbb) is not None:
+                        lb, helper_call, cl_loop = hb, (hbb, ht), hcl
+                        cl, vals = [(hbb, ht)], [(hbb, ht)]
     if not cl or not vals:
         return ctx.ob("PAIR-close", "close-loop", False, "no loop closing the send channels when the input ends: peers wait forever / records stay buffered", site_of(b))
-    cb, ct = cl[0]
-    e = str(flow.expr_of(b, ct["args"][0]))
+    cb, ct = cl[0] if helper_call is None else cl_loop[0]
+    e = str(flow.expr_of(lb, ct["args"][0]))
     ok = "Iterator::next" in e and re.search(r"HashMap::<K, V, S, A>::(values|values_mut|iter|iter_mut)'", e) is not None
-    ctx.ob("PAIR-close", "closes-each-channel", ok, "close() is applied to every channel yielded by send_channels.values()" if ok else "close() is not applied to the iterated channels", site_of(b, cb))
-    e2 = str(flow.expr_of(b, ct["args"][1]))
-    ctx.ob("PAIR-close", "closes-at-last-record", "Iterator::next" in e2, "closed at the per-destination record count", site_of(b, cb))
+    ctx.ob("PAIR-close", "closes-each-channel", ok, "close() is applied to every channel yielded by send_channels.values()" if ok else "close() is not applied to the iterated channels", site_of(lb, cb))
+    e2 = str(flow.expr_of(lb, ct["args"][1]))
+    ctx.ob("PAIR-close", "closes-at-last-record", "Iterator::next" in e2, "closed at the per-destination record count", site_of(lb, cb))
     # Ok(None) after exhaustion is reached only through the loop exit
     try_next = flow.find_calls(b, re.compile(r"TryStreamExt::try_next$"))
     oks = malsec.ok_blocks(b)
@@ -271,7 +283,7 @@ def close_all(ctx, facts, b):
         ctx.ob("PAIR-close", f"close#{k}:only-after-clean-end-of-input", okc, "channels are closed only after try_next()? yielded None" if okc else
                ("the channels are closed on a path on which the input may have failed (before the `?` on try_next): the peer shards see a clean end of data, keep what they received so far and complete successfully with records missing" if not after_q else
                 "the channels are closed on a path that is not the end of the input (not under the None arm of try_next): peers see the end of data early"), site_of(b, cbb))
-    st = flow.settled(b, cb)
+    st = flow.settled(lb, cb)
     ctx.ob("PAIR-close", "close-awaited", st is not None, "close(..) is awaited" if st else "close(..) future is created but never awaited (nothing is closed)", site_of(b, cb))
 
 
@@ -444,7 +456,14 @@ def split(ctx, facts):
         return ctx.missing("SPLIT", "reshard_aad")
     rs = flow.find_calls(ra, re.compile(r"context::reshard_try_stream$"))
     st = flow.settled(ra, rs[0][0]) if rs else None
-    ctx.ob("SPLIT", "reshard-awaited", st is not None and st["q"] is not None, "reshard_try_stream is awaited and `?`-propagated", site_of(ra))
+    okq = st is not None and st["q"] is not None
+    if st is not None and not okq and st.get("out") is not None:
+        # `reshard_try_stream(..).await.map(|a| (k, a))` as the function's value keeps the error as it is
+        al = flow.local_aliases_fwd(ra, st["out"])
+        for mb, mt in flow.find_calls(ra, re.compile(r"Result::<T, E>::(map|and_then)$")):
+            if F.op_local(mt["args"][0]) in al and not (set(malsec.ok_blocks(ra)) & ra.reachable(mb)):
+                okq = True
+    ctx.ob("SPLIT", "reshard-awaited", okq, "reshard_try_stream is awaited and `?`-propagated", site_of(ra))
     if rs:
         e = str(flow.expr_of(ra, rs[0][1]["args"][2]))
         ctx.ob("SPLIT", "picker-forwarded", "arg" in e or "upvar" in e, "the caller's shard picker is passed through unchanged", site_of(ra, rs[0][0]))
